@@ -180,7 +180,8 @@ pub fn gen_block(rng: &mut Rng, intra: bool, shape: Shape, cfg: LevelCfg) -> Sym
             choose((0..64).collect(), n, rng)
         }
         Shape::Dense => {
-            let n = 12 + rng.below(52) as usize;
+            // now and then every scan position is coded (63 events in an intra block, 64 in an inter block)
+            let n = if rng.chance(1, 8) { 64 } else { 12 + rng.below(52) as usize };
             choose((0..64).collect(), n, rng)
         }
         Shape::Last63 => {
@@ -336,9 +337,24 @@ pub fn gen_intra(rng: &mut Rng, cfg: &PicCfg) -> SymPicture {
     // per-picture shape palette so that some pictures are all-of-one-shape
     let palette: Vec<Shape> = if rng.chance(1, 4) { vec![*rng.pick(&SHAPES)] } else { SHAPES.to_vec() };
     let mut mbs = Vec::with_capacity(mbw * mbh);
+    // one picture in six is built from a small pool of distinct blocks, so identical blocks recur
+    // (next to each other and interleaved with different ones)
+    let pool: Vec<SymBlock> = if rng.chance(1, 6) {
+        (0..2 + rng.below(4))
+            .map(|_| {
+                let shape = *rng.pick(&palette);
+                gen_block(rng, true, shape, lc)
+            })
+            .collect()
+    } else {
+        vec![]
+    };
     for _ in 0..mbw * mbh {
         let kind = if rng.below(100) < q_pct { MbKind::IntraQ } else { MbKind::Intra };
         let blocks: [SymBlock; 6] = std::array::from_fn(|_| {
+            if !pool.is_empty() {
+                return rng.pick(&pool).clone();
+            }
             let shape = *rng.pick(&palette);
             gen_block(rng, true, shape, lc)
         });
